@@ -145,9 +145,18 @@ fn staking_family(plan: &Plan) -> RunResult {
             let unlocked = block_id.saturating_sub(op.a % 3);
             let staking_before: u128 = wal.staking_slips.iter().filter_map(|k| wal.slips.get(k)).filter(|s| s.block_id <= unlocked).map(|s| s.amount as u128).sum();
             let normal_before = wal.get_available_balance();
-            match wal.create_staking_transaction(amount, unlocked, 0) {
+            // outputs of blocks below this id are handled by the rebroadcast pass of the block the stake is made
+            // for: the wallet must not select them, neither as stake outputs nor for the top-up
+            let last_valid = if op.b % 2 == 0 { 0 } else { block_id.saturating_sub(1 + op.a % 4) };
+            match wal.create_staking_transaction(amount, unlocked, last_valid) {
                 Ok(tx) => {
                     stakes += 1;
+                    if let Some(old) = tx.from.iter().find(|s| s.amount > 0 && s.block_id < last_valid) {
+                        r.violate(
+                            "C19|built-tx|stake-spends-expiring-output",
+                            format!("staking family, step {}: the staking transaction spends an output of block {} although outputs below block {} are no longer spendable in the staked block", step, old.block_id, last_valid),
+                        );
+                    }
                     if staking_before > 0 && staking_before < amount as u128 {
                         mixed += 1;
                     }
